@@ -250,7 +250,8 @@ def small_patterns(depth=2, with_notation=True, rng=None, cap=None):
     leaves = [('PEVar', 0), ('PEVar', 1), ('PSVar', 0), ('PSVar', 1), ('PSymbol', 0),
               ('PMetaVar', 0, nil, nil, nil, nil, nil), ('PMetaVar', 1, nil, nil, nil, nil, nil),
               ('PMetaVar', 1, ('icons', 0, nil), nil, nil, nil, nil),
-              ('PMetaVar', 0, nil, ('icons', 0, nil), ('icons', 1, nil), nil, nil)]
+              ('PMetaVar', 0, nil, ('icons', 0, nil), ('icons', 1, nil), nil, nil),
+              ('PMetaVar', 0, nil, nil, ('icons', 0, nil), ('icons', 1, nil), nil)]
     levels = [leaves]
     for _ in range(depth - 1):
         prev = [p for lv in levels for p in lv]
@@ -294,7 +295,8 @@ def small_patterns(depth=2, with_notation=True, rng=None, cap=None):
 def ground_patterns():
     return [('EVar', 0), ('EVar', 1), ('SVar', 0), ('SVar', 1), ('Symbol', 0),
             ('Implies', ('SVar', 0), ('Symbol', 0)), ('Implies', ('EVar', 0), ('SVar', 1)), ('App', ('EVar', 1), ('SVar', 0)),
-            ('Exists', 0, ('EVar', 0)), ('Mu', 0, ('SVar', 0)), ('Implies', ('SVar', 1), ('SVar', 0))]
+            ('Exists', 0, ('EVar', 0)), ('Mu', 0, ('SVar', 0)), ('Implies', ('SVar', 1), ('SVar', 0)),
+            ('Implies', ('SVar', 1), ('Symbol', 0)), ('Implies', ('SVar', 0), ('Symbol', 0))]
 
 
 def small_maps():
